@@ -11,6 +11,7 @@ import Macaroon.Generated.BundleLocks
 import Driver.OpsWire
 import Driver.OpsToken
 import Driver.OpsScope
+import Driver.OpsTP
 
 namespace Driver
 open Macaroon
@@ -68,7 +69,7 @@ def evalOp : Sx → Option String
 def evalLine (line : String) : String :=
   match Sx.parse line with
   | none => "bad-parse"
-  | some sx => ((evalOp sx) <|> (evalOpWire sx) <|> (evalOpToken sx) <|> (evalOpScope sx)).getD "bad-op"
+  | some sx => ((evalOp sx) <|> (evalOpWire sx) <|> (evalOpToken sx) <|> (evalOpScope sx) <|> (TPIO.evalOpTP sx)).getD "bad-op"
 
 partial def loop (h : IO.FS.Stream) (out : IO.FS.Stream) : IO Unit := do
   let line ← h.getLine
